@@ -77,6 +77,7 @@ def prog(env, case):
                          "strong-duality contract", signature=tag + ":dual-value-original", pools=('kkt0', 'gap0'))
     else:
         c01.concrete_check(env, m, tau, spec2, pid="C14")
+        dual_value = float(c01.residue(pep).get('c', 0))     # constant of the certificate = the original problem's bound
     # ---- primal mode: objective leaf at the last solution, within tol of the optimum --------------------------------
     Fv = pep.F_value
     if mode == 'primal':
@@ -86,6 +87,10 @@ def prog(env, case):
             env.check(env.ge(tau, wc_first - tol), "primal value is not within tol of the first optimum although the "
                       "solver's last solution satisfies the rows it was given", signature=tag + ":within-tol",
                       pools=('primal%d' % (len(stub.solves) - 1),))
+        if not env.sym and n_solves_expected > 1:
+            env.check(float(tau) >= dual_value - float(tol) - 2e-3 * (1 + abs(dual_value)),
+                      "primal value %g is more than tol=%g below the optimum %g" % (float(tau), float(tol), dual_value),
+                      signature=tag + ":within-tol")
     if env.sym:
         # the instance PEPit evaluates is the last solution
         lastG = last.x if backend == 'cvxpy' else None
@@ -115,6 +120,10 @@ def prog(env, case):
         ok = len(extra) == 1 and extra[0]['kind'] == 'le' and set(extra[0]['form']) == {('F', pep.objective.counter)}
         env.check(ok, "the last problem should contain exactly one extra row (first optimum - tol - objective <= 0); got %s"
                   % [sdp.describe(r) for r in extra[:3]], signature=tag + ":extra-row")
+        if ok and not env.sym:
+            env.check(abs(float(extra[0]['const']) - (dual_value - float(tol))) <= 2e-3 * (1 + abs(dual_value)),
+                      "extra row bound %g is not (first optimum %g - tol %g)" % (float(extra[0]['const']), dual_value, float(tol)),
+                      signature=tag + ":extra-row-bound")
         if ok and env.sym:
             env.check_eq(extra[0]['form'][('F', pep.objective.counter)], -1, "extra row coefficient", signature=tag + ":extra-row")
             env.check_eq(extra[0]['const'], wc_first - tol, "extra row bound is not (first optimum - tol)",
@@ -153,7 +162,7 @@ def prog(env, case):
 
 def cases(tier):
     cs = []
-    hs = ['trace', 'logdet0', 'logdet1'] + (['logdet2'] if tier == 'thorough' else [])
+    hs = ['trace', 'logdet0', 'logdet1', 'logdet2']
     models = [('gd', dict(fclass='ssc', steps=['grad']))]
     if tier == 'thorough':
         models += [('lmi', dict(fclass='ssc', steps=['grad'], lmis=['sym2'], lmi_metric=False)),
@@ -182,5 +191,5 @@ def main(tier, only=None):
                      "'trace does not increase' is not decided (z3: unknown after 600 s on the bilinear weak-duality query, "
                      "2x2 Gram); its premises are proved: the second problem = original rows + one row satisfied by the first "
                      "solution, objective exactly trace(G)"],
-        bounds=dict(heuristics="trace, logdet0, logdet1 (logdet2 thorough)", models=1 if tier == 'quick' else 3,
+        bounds=dict(heuristics="trace, logdet0, logdet1, logdet2", models=1 if tier == 'quick' else 3,
                     outside="N > 2 logdet iterations; the numerical rank decision"))
